@@ -252,6 +252,36 @@ def run(replay=None):
                        'strict_refused': False}
                 add(rec, (how, 'raised') + klass, '%s(%s) raised %r' % (how, exp.hex()[:200], e))
 
+    # ---------------- concatenation: (A + B) is the script of A's items followed by B's items, whichever way A and B were made
+    # (parsed, i.e. with cached bytes; built from items and never serialized; built and serialized before)
+    if not replay:
+        simple = [x for x in scripts if len(x) <= 4 and all(isinstance(c, int) or len(c) in (1, 2, 3, 5, 20, 32) for c in x)]
+        exp_of = {}
+        for x, g in zip(scripts, gen):
+            exp_of[id(x)] = bytes(g['exp'])
+        for _ in range(3000 if thorough else 240):
+            a, b = rng.choice(simple), rng.choice(simple)
+            how_a, how_b = rng.choice(['parsed', 'built', 'built+serialized']), rng.choice(['parsed', 'built', 'built+serialized'])
+            try:
+                def make(x, how):
+                    if how == 'parsed':
+                        return Script.parse_bytes(exp_of[id(x)], strict=False)
+                    sc = Script(commands=list(x))
+                    if how == 'built+serialized':
+                        sc.serialize()
+                        sc.as_bytes()
+                    return sc
+                c = make(a, how_a) + make(b, how_b)
+                views = {'as_bytes': c.as_bytes(), 'as_hex': bytes.fromhex(c.as_hex())}
+                if how_a != 'parsed' and how_b != 'parsed':
+                    views['serialize'] = c.serialize()
+            except Exception as e:
+                ck.violation(None, 'Script + Script raised %r (%s + %s)' % (e, how_a, how_b), {'records': []})
+                continue
+            for view, got in views.items():
+                add({'k': 'ser', 'items': items_json(list(a) + list(b)), 'got': blist(got)}, ('concat', how_a, how_b, view),
+                    '(%s script %s) + (%s script %s) .%s()' % (how_a, exp_of[id(a)].hex()[:60], how_b, exp_of[id(b)].hex()[:60], view))
+
     # ---------------- judge everything with TLC
     verdicts = common.tlc_eval('WireEval', [r for r, _, _ in recs])
     for (rec, klass, desc), v in zip(recs, verdicts):
